@@ -46,6 +46,9 @@ type Call struct {
 	LoadBytes []byte            `json:"load_bytes,omitempty"`
 	// Carry (C06 pieces): input name <- output name of call Ref
 	Carry map[string]string `json:"carry,omitempty"`
+	// RetryOf (C06 pieces): 1 + index of an earlier, aborted attempt of this same piece whose very tensor
+	// objects are passed again (0 = not a retry).
+	RetryOf int `json:"retry_of,omitempty"`
 }
 
 type Task struct {
@@ -75,4 +78,9 @@ type Case struct {
 	// driver when a violation needs a "warm" process (state that outlives Models, e.g. a package-level cache)
 	// and therefore does not show in a fresh process on the first execution.
 	Warm int `json:"warm,omitempty"`
+	// PristineRef: judge against references computed in brand-new OS processes (one per call).
+	PristineRef bool `json:"pristine_ref,omitempty"`
+	// Prelude: the worlds the same worker process executed immediately before this one (recorded on violations
+	// only; replay executes them first, minimisation drops what is not needed).
+	Prelude []Case `json:"prelude,omitempty"`
 }
